@@ -59,6 +59,11 @@ func (e *elasticBulkDec) Decode() error {
 			return customErrors.NewUnmarshalError(err)
 		}
 	}
+	if err := scanner.Err(); err != nil {
+		// read error (truncated gzip / snappy stream) or a line longer than the scanner buffer: the rest of
+		// the body was not decoded, the request must not be acknowledged
+		return customErrors.NewUnmarshalError(err)
+	}
 	return nil
 }
 
